@@ -1633,6 +1633,19 @@ async fn apply_assignment(
         if existing_value.is_readonly() {
             return Err(error::ErrorKind::ReadonlyVariable.into());
         }
+
+        // An appending assignment (e.g., `y+=b cmd`) starts out from the value of the
+        // variable it shadows.
+        if assignment.append && array_index.is_none() {
+            let mut new_var = existing_value.clone();
+            new_var.assign(new_value, true)?;
+
+            if export {
+                new_var.export();
+            }
+
+            return shell.env_mut().add(variable_name, new_var, creation_scope);
+        }
     }
 
     // If we fell down here, then we need to add it.
